@@ -218,7 +218,18 @@ Definition c08_task_b (cfg : config) (w : list itask) (o : osch) (t : nat) : boo
       (* encoding of the dates *)
       && (if (now cfg <=? pbound cfg) then
             match days with
-            | [] => true
+            | [] =>
+                (* no work left, nothing reserved: the start is still the encoded date of its day (a day with
+                   capacity); the share booked before the task is the share booked by some prefix of rows()
+                   (the moment the task was placed), hence at most the share booked on that day in the whole
+                   schedule; the end is the start, or the project start when that is later *)
+                (0 <? cap cfg r (day_of s)) && (e =? Z.max s (pbound cfg))
+                && (if balance cfg then
+                      (s <=? DAY * day_of s + frac (obooked (o_rows o) r (day_of s)) (cap cfg r (day_of s)))
+                      && existsb (fun n => s =? DAY * day_of s
+                                                + frac (obooked (firstn n (o_rows o)) r (day_of s)) (cap cfg r (day_of s)))
+                                 (seq 0 (S (length (o_rows o))))
+                    else s =? DAY * day_of s)
             | d0 :: ds =>
                 let first := zmin_list d0 ds in
                 if balance cfg then
@@ -272,7 +283,16 @@ Definition c09_task_b (cfg : config) (w : list itask) (o : osch) (t : nat) : boo
                forallb (fun d => obooked (o_rows o) r d =? cap cfg r d)
                        (zrange (day_of e + 1) (Z.to_nat (day_of due - day_of e - 1)))
                && (match days with
-                   | [] => true
+                   | [] =>
+                       (* a leaf without work left reserves nothing: start = end; the end is still the encoded
+                          date of a day with capacity: the share booked before the task is the share booked
+                          by some prefix of rows() (the moment the task was placed), hence at most the share
+                          booked on that day in the whole schedule *)
+                       (s =? e) && (0 <? cap cfg r eday)
+                       && (DAY * (eday + 1) - frac (obooked (o_rows o) r eday) (cap cfg r eday) <=? e)
+                       && existsb (fun n => e =? DAY * (eday + 1)
+                                                 - frac (obooked (firstn n (o_rows o)) r eday) (cap cfg r eday))
+                                  (seq 0 (S (length (o_rows o))))
                    | d0 :: ds =>
                        let first := zmin_list d0 ds in
                        let last := zmax_list d0 ds in
@@ -285,7 +305,10 @@ Definition c09_task_b (cfg : config) (w : list itask) (o : osch) (t : nat) : boo
                    end)
              else
                match days with
-               | [] => true
+               | [] =>
+                   (* no work left, balancing off: nothing of its own is booked, the end is the midnight
+                      following a day with capacity *)
+                   (s =? e) && (0 <? cap cfg r eday) && (e =? DAY * (eday + 1))
                | d0 :: ds =>
                    let first := zmin_list d0 ds in
                    (s =? DAY * (first + 1) - frac (obooked_t (o_rows o) r first t) (cap cfg r first))
